@@ -238,30 +238,33 @@ Record attrs_result := mkAR {
   r_dirs : list directive; r_st : st;
 }.
 
+(* the props expression once all attributes have been folded *)
+Definition final_attrs_expr (a : acc) : node * st :=
+  match a_margs a with
+  | _ :: _ =>
+      let margs := match a_props a with
+                   | [] => a_margs a
+                   | ps => a_margs a ++ [flush_obj ps]
+                   end in
+      match margs with
+      | [e] => (e, a_st a)
+      | _ => let '(h, s) := import_from_vue "mergeProps" (a_st a) in (mk_call h margs, s)
+      end
+  | [] =>
+      match a_props a with
+      | [] => (Null, a_st a)
+      | [Spread e] => (e, a_st a)
+      | ps => (flush_obj ps, a_st a)
+      end
+  end.
+
 Definition transform_attrs (attrs : list node) (is_comp : bool) (s : st) : attrs_result :=
   match attrs with
   | [] => mkAR Null 0 None None [] s
   | _ =>
       let a := fold_left (attr_step is_comp) attrs
                          (mkAcc [] [] [] [] None false false false false false s) in
-      let '(expr, s) :=
-        match a_margs a with
-        | _ :: _ =>
-            let margs := match a_props a with
-                         | [] => a_margs a
-                         | ps => a_margs a ++ [flush_obj ps]
-                         end in
-            match margs with
-            | [e] => (e, a_st a)
-            | _ => let '(h, s) := import_from_vue "mergeProps" (a_st a) in (mk_call h margs, s)
-            end
-        | [] =>
-            match a_props a with
-            | [] => (Null, a_st a)
-            | [Spread e] => (e, a_st a)
-            | ps => (flush_obj ps, a_st a)
-            end
-        end in
+      let '(expr, s) := final_attrs_expr a in
       mkAR expr (compute_flags a) (Some (a_dyn a)) (a_slots a) (a_dirs a) s
   end.
 
